@@ -57,6 +57,12 @@ Reset == Ev("Reset") /\ mws' = EmptyFn /\ ref' = (IF Keep THEN ref ELSE EmptyFn)
 Skip == /\ l <= Len(Trace) /\ Trace[l].ev \in {"Stutter", "Note", "Rejected", "Panic"} /\ l' = l + 1
         /\ UNCHANGED <<mws, ref, cfgfp, gens, bad, stats>>
 
+\* a SetDebug / Reconfigure call made from a handler that the middleware itself wraps (the documentation invites exposing them on
+\* endpoints of the protected server) never returned: the step of the state machine was not taken, nor can any later one be
+\* (by = "watchdog": some other call into the library blocked; the run ends there without a verdict of this specification)
+Hang == /\ Ev("Hang") /\ bad' = (IF Trace[l].by = "handler" THEN bad \cup {<<l, Trace[l].what>>} ELSE bad)
+        /\ UNCHANGED <<mws, ref, cfgfp, gens, stats>>
+
 Zero == /\ Ev("Zero")
         /\ mws' = Put(mws, Trace[l].mw, ZeroState) /\ cfgfp' = Del(cfgfp, Trace[l].mw)
         /\ gens' = Put(gens, Trace[l].mw, 0)
@@ -155,7 +161,7 @@ Debug ==
 
 Init == l = 1 /\ mws = EmptyFn /\ ref = EmptyFn /\ cfgfp = EmptyFn /\ gens = EmptyFn /\ bad = {}
         /\ stats = [segments |-> 0, observations |-> 0, compared |-> 0, weak |-> 0, debugOn |-> 0]
-Next == Reset \/ Skip \/ Zero \/ New \/ Reconf \/ SetDebug \/ Observe \/ Pair \/ Reused \/ Debug
+Next == Reset \/ Skip \/ Zero \/ New \/ Reconf \/ SetDebug \/ Observe \/ Pair \/ Reused \/ Debug \/ Hang
 Spec == Init /\ [][Next]_vars
 
 Final == (l = Len(Trace) + 1) =>
